@@ -107,6 +107,8 @@ class Prov(AbsInt):
         return None
 
     def external_call(self, name, node, fr):
+        if name in ('pandas.DataFrame', 'copy.deepcopy', 'copy.copy') and node.args:
+            return self.value(node.args[0], fr)
         if name == 'pandas.concat' and node.args:
             v = self.value(node.args[0], fr)
             if isinstance(v, Tup):
